@@ -203,11 +203,11 @@ def pmap(fn, jobs, nproc=None):
         return pool.map(fn, jobs, chunksize=1)
 
 
-def decide_job(group, obligations, assumptions=(), timeout_ms=60000, sample_names=(), extra=None, tactic='qfnra-nlsat'):
+def decide_job(group, obligations, assumptions=(), timeout_ms=60000, sample_names=(), extra=None, tactic='qfnra-nlsat', budget_s=None):
     """worker-side: discharge [(name, lhs, rhs)] identities (or (name, [constraints]) raw obligations);
     returns plain data for Run.absorb_job"""
     from .solve import Batch
-    b = Batch(tactic=tactic, timeout_ms=timeout_ms, assumptions=assumptions)
+    b = Batch(tactic=tactic, timeout_ms=timeout_ms, assumptions=assumptions, budget_s=budget_s)
     for ob in obligations:
         if len(ob) == 3:
             b.add_identity(ob[0], ob[1], ob[2])
